@@ -10,4 +10,6 @@ cd /verif
 ./check "$@" --evidence /tmp/ev_mut.json 2>&1 | grep -v "^Test deadlocked" | tail -12
 rc=${PIPESTATUS[0]}
 git -C /repo checkout -- .
+# never leave a mutant build behind: rebuild the harness from the restored tree
+(cd /verif/sim && cargo build --release --offline -p yui-sim >/dev/null 2>&1) || echo "WARNING: rebuild after restore failed"
 echo "check exit=$rc"
